@@ -771,17 +771,15 @@ theorem perDim_slice (cfg : IndexCfg) (hm : cfg.mode = .label) (s e : Option Lab
 
 
 /-- one dimension of a label-mode index: `_get_indices` + NumPy's resolution against the definitional spec
-`positionsL`.  Either it resolves, or `_get_indices` raises (absent label / bad slice bound), or it is a mask of
-another length than the axis (accepted by `_get_indices`, rejected by NumPy when it is looked at). -/
+`positionsL`.  Either it resolves, or `_get_indices` raises (absent label / bad slice bound / a mask of another
+length than the axis). -/
 theorem perDim_good (cfg : IndexCfg) (hm : cfg.mode = .label) (ht : cfg.tol = none)
     (hk : cfg.keepdims = false) (ix : Ix) (ax : Axis) (hg : GoodIx ix)
     (hn : ax.labels.Nodup) (hp : ax.members = []) :
     (∃ r p, giLabel cfg (ix, ax) = .ok r ∧ resolveRaw r ax.size = .ok p ∧
         positionsL ax.labels ax.kind ix = some p) ∨
     (∃ err, giLabel cfg (ix, ax) = .error err ∧ positionsL ax.labels ax.kind ix = none ∧
-        (SimpleIx ix → err = .index)) ∨
-    (∃ m, ix = .mask m ∧ m.length ≠ ax.labels.length ∧ giLabel cfg (ix, ax) = .ok (.mask m) ∧
-        positionsL ax.labels ax.kind ix = none) := by
+        (SimpleIx ix → err = .index)) := by
   have hsize := axis_size_plain ax hp
   have hmode : (cfg.mode != Mode.position) = true := by rw [hm]; decide
   cases ix with
@@ -805,7 +803,7 @@ theorem perDim_good (cfg : IndexCfg) (hm : cfg.mode = .label) (ht : cfg.tol = no
         have h2 : ¬ ((firstIdx ax.labels v : Int) ≥ (ax.labels.length : Int)) := by omega
         simp [h1, h2, bind, Except.bind, pure, Except.pure]
       · simp [positionsL, positions, hmem]
-    · right; left
+    · right
       refine ⟨.index, ?_, ?_, fun _ => rfl⟩
       · simp only [giLabel, hmode, Ix.isFull, ht, hloc, locateOne_none, hmem]
         simp [Except.map, bind, Except.bind]
@@ -824,7 +822,7 @@ theorem perDim_good (cfg : IndexCfg) (hm : cfg.mode = .label) (ht : cfg.tol = no
         have hmem : ∀ v ∈ vs, v ∈ ax.labels := by simpa using hall
         exact firstIdx_lt_iff.mpr (hmem v hv)
       · simp [positionsL, positions, hall]
-    · right; left
+    · right
       refine ⟨.index, ?_, ?_, fun _ => rfl⟩
       · simp only [giLabel, hmode, Ix.isFull, ht, hloc, hall]
         simp [bind, Except.bind]
@@ -833,12 +831,12 @@ theorem perDim_good (cfg : IndexCfg) (hm : cfg.mode = .label) (ht : cfg.tol = no
     by_cases hlen : m.length = ax.labels.length
     · left
       refine ⟨.mask m, .list (nonzero m), ?_, ?_, ?_⟩
-      · simp [giLabel, bind, Except.bind, pure, Except.pure]
+      · simp [giLabel, hsize, hlen, bind, Except.bind, pure, Except.pure]
       · simp [resolveRaw, hsize, hlen]
       · simp [positionsL, positions, hlen]
-    · right; right
-      refine ⟨m, rfl, hlen, ?_, ?_⟩
-      · simp [giLabel, bind, Except.bind, pure, Except.pure]
+    · right
+      refine ⟨.index, ?_, ?_, fun _ => rfl⟩
+      · simp [giLabel, hsize, hlen, bind, Except.bind, pure, Except.pure]
       · simp [positionsL, positions, hlen]
   | slice s e st =>
     by_cases hfull : (Ix.slice s e st).isFull = true
@@ -857,7 +855,7 @@ theorem perDim_good (cfg : IndexCfg) (hm : cfg.mode = .label) (ht : cfg.tol = no
         refine ⟨.slice a b st, .list ps, h1, ?_, ?_⟩
         · simp [resolveRaw, h2, bind, Except.bind, pure, Except.pure]
         · simp [positionsL, hnf, h3]
-      · right; left
+      · right
         refine ⟨err, h1, by simp [positionsL, hnf, h3], ?_⟩
         intro hsimple
         cases s <;> cases e <;> cases st <;> simp [SimpleIx, Ix.isFull] at hsimple hnf
@@ -936,7 +934,7 @@ theorem stages_ok (cfg : IndexCfg) (hm : cfg.mode = .label) (ht : cfg.tol = none
     | cons ix ixs =>
       rw [resolveL_cons] at h
       rcases perDim_good cfg hm ht hk ix ax (hg ix (by simp)) (hax ax (by simp)).1 (hax ax (by simp)).2 with
-        ⟨r, p, h1, h2, h3⟩ | ⟨err, _, h3, _⟩ | ⟨m, _, _, _, h3⟩
+        ⟨r, p, h1, h2, h3⟩ | ⟨err, _, h3, _⟩
       · rw [h3] at h
         cases hT : resolveL axes ixs with
         | none => rw [hT] at h; cases h
@@ -950,40 +948,37 @@ theorem stages_ok (cfg : IndexCfg) (hm : cfg.mode = .label) (ht : cfg.tol = none
           · rw [List.zip_cons_cons, exceptMapM_cons, h1, hr1]
           · rw [resolveAll_cons, h2, hr2]
       · rw [h3] at h; cases h
-      · rw [h3] at h; cases h
 
-/-- some dimension does not resolve (and no mask has a wrong length): `_get_indices` raises -/
+/-- some dimension does not resolve: `_get_indices` raises -/
 theorem stages_err (cfg : IndexCfg) (hm : cfg.mode = .label) (ht : cfg.tol = none) (hk : cfg.keepdims = false) :
     ∀ (axes : List Axis) (ixs : List Ix), ixs.length = axes.length →
       (∀ ix ∈ ixs, GoodIx ix) → (∀ ax ∈ axes, ax.labels.Nodup ∧ ax.members = []) →
-      (∀ x ∈ ixs.zip axes, MaskFit x.1 x.2) →
       resolveL axes ixs = none →
       ∃ err, (ixs.zip axes).mapM (giLabel cfg) = .error err ∧ ((∀ ix ∈ ixs, SimpleIx ix) → err = .index) := by
   intro axes
   induction axes with
   | nil =>
-    intro ixs hlen _ _ _ h
+    intro ixs hlen _ _ h
     have : ixs = [] := List.length_eq_zero_iff.mp (by simpa using hlen)
     subst this
     simp [resolveL] at h
   | cons ax axes ih =>
-    intro ixs hlen hg hax hfit h
+    intro ixs hlen hg hax h
     cases ixs with
     | nil => simp at hlen
     | cons ix ixs =>
       rw [resolveL_cons] at h
       rw [List.zip_cons_cons, exceptMapM_cons]
       rcases perDim_good cfg hm ht hk ix ax (hg ix (by simp)) (hax ax (by simp)).1 (hax ax (by simp)).2 with
-        ⟨r, p, h1, h2, h3⟩ | ⟨err, h1, h3, hc⟩ | ⟨m, hm', hne, _, h3⟩
+        ⟨r, p, h1, h2, h3⟩ | ⟨err, h1, h3, hc⟩
       · rw [h3] at h
         cases hT : resolveL axes ixs with
         | some ps' => rw [hT] at h; cases h
         | none =>
           obtain ⟨err, he1, he2⟩ := ih ixs (by simpa using hlen) (fun i hi => hg i (by simp [hi]))
-            (fun a ha => hax a (by simp [ha])) (fun x hx => hfit x (by simp [hx])) hT
+            (fun a ha => hax a (by simp [ha])) hT
           refine ⟨err, by rw [h1, he1], fun hs => he2 (fun i hi => hs i (by simp [hi]))⟩
       · exact ⟨err, by rw [h1], fun hs => hc (hs ix (by simp))⟩
-      · exact absurd (hfit (ix, ax) (by simp) m hm') hne
 
 
 end C03P
